@@ -100,6 +100,9 @@ func validOptions(r *kit.Reg) bool {
 func NewModel(spec *kit.Spec) *Model {
 	m := &Model{Spec: spec, Services: map[Ident]RegOut{}, Groups: map[Ident][]RegOut{}, regs: map[int]*kit.Reg{}}
 	for i := range spec.Regs {
+		for _, d := range spec.Regs[i].RemoveFirst {
+			m.Remove(d.T, d.Key)
+		}
 		m.AddErr = append(m.AddErr, m.Add(&spec.Regs[i]))
 	}
 	return m
